@@ -229,6 +229,65 @@ def l_addr(n, nopts):
         cover("all-failed")
 
 
+def l_again(between, how):
+    """the SAME WebSocket object connects, the connection ends (orderly close() with the server answering / close() against a
+    silent server / shutdown() / end of stream seen by recv()), and connects again without repeating the options: every socket
+    tried by the second connect() (refused first address, accepting second) gets the timeout and socket options that were
+    configured, exactly like the first time"""
+    quiet_logging()
+    import websocket
+    from websocket._socket import DEFAULT_SOCKET_OPTION
+    from .appcommon import close_frame
+    user_opts = [(_socket.SOL_SOCKET, _socket.SO_REUSEADDR, 1)]
+    addrs = [(_socket.AF_INET, _socket.SOCK_STREAM, 6, "", ("10.0.0.%d" % (i + 1), 8080)) for i in range(2)]
+
+    def answer_close(server, data):
+        if len(data) >= 2 and (data[0] & 0x0F) == 8:
+            server.deliver(close_frame(1000))
+    spec = {"on_frame_bytes": answer_close} if between == "close-answered" else ({"script": [(1, "EOF")]} if between == "eof" else {})
+    k = Kernel(step_budget=3000)
+    net = Net(k, [spec, {}], outcomes={0: "accept", 1: "refused", 2: "accept"}, addrinfo=addrs)
+    simnet.install(k, net)
+    T = 10
+    try:
+        try:
+            if how == "ctor":
+                ws = websocket.WebSocket(sockopt=user_opts)
+                ws.settimeout(T)
+                ws.connect("ws://h.example:8080/r")
+            else:
+                ws = websocket.WebSocket(sockopt=user_opts)
+                ws.connect("ws://h.example:8080/r", timeout=T)
+            if between in ("close-answered", "close-silent"):
+                ws.close()
+            elif between == "shutdown":
+                ws.shutdown()
+            else:
+                try:
+                    ws.recv()
+                except websocket.WebSocketConnectionClosedException:
+                    pass
+            ws.connect("ws://h.example:8080/r")
+        except (sx.Control, sx.ConcreteFailure, sx.ReplayMismatch):
+            raise
+        except Exception as e:
+            sx.require(False, "connect / close / connect on one object raised %s" % type(e).__name__, between=between, how=how)
+            return
+    finally:
+        k.shutdown()
+        simnet.uninstall()
+    sx.require(len(net.socks) == 3, "second connect() tries the refused address, then the accepting one", got=len(net.socks), between=between)
+    for i, s in enumerate(net.socks):
+        tos = [e[1] for e in s.log if e[0] == "settimeout"]
+        sx.require(len(tos) >= 1 and tos[0] == T, "the configured timeout is applied to every socket tried, also by a later connect() of the same "
+                   "object", i=i, got=str(tos[:1]), exp=T, between=between, how=how)
+        for opt in list(DEFAULT_SOCKET_OPTION) + user_opts:
+            sx.require(tuple(opt) in [tuple(o) for o in s.opts], "default and user socket options applied to every socket tried, also by a later "
+                       "connect()", i=i, between=between, opt=str(opt))
+    sx.require(ws.connected and not net.socks[2].closed and net.socks[1].closed, "the second connection is up on the accepting address", between=between)
+    cover("again")
+
+
 def l_redirect(scheme2, port2, path2):
     """after a redirect, target / port / resource / TLS are those of the Location URL (shared with C10 Q-redirect)"""
     from .c10 import q_redirect
@@ -259,4 +318,8 @@ def obligations(tier):
                    bounds="address lists of length 1..4, every pattern of {accept, refused, unreachable, other error, timeout}; socket timeout a solver "
                           "real in (0,100); 0..2 user socket options", must_cover=["accepted", "all-failed"], budget_s=1800, step_budget=50000,
                    kernel=["_http.connect", "_get_addrinfo_list", "_open_socket", "_socket.DEFAULT_SOCKET_OPTION"]),
+        Obligation("L-again", l_again, [dict(between=b, how=h) for b in ("close-answered", "close-silent", "shutdown", "eof") for h in ("ctor", "connect")],
+                   bounds="connect, end (close answered / close unanswered / shutdown / end of stream), connect again on the same object; timeout given "
+                          "through settimeout() or connect(timeout=); 2 addresses for the second attempt (refused, accept)",
+                   must_cover=["again"], step_budget=100000, kernel=["WebSocket.connect", "WebSocket.close", "WebSocket.shutdown", "_http._open_socket"]),
     ]
